@@ -176,7 +176,8 @@ def run_diagram(M, spec):
         signal.setitimer(signal.ITIMER_REAL, 0)
     o["calls"], o["delivered"] = calls[:200], delivered[:200]
     o["caps"] = sorted(c.value for c in diag.required_capabilities())
-    d = {"mods": spec["mods"], "wires": [{"sm": w.src_module, "sp": w.src_port, "dm": w.dst_module, "dp": w.dst_port} for w in diag.wires], "ext": spec["ext"]}
+    o["held"] = [{"sm": w.src_module, "sp": w.src_port, "dm": w.dst_module, "dp": w.dst_port} for w in diag.wires]       # what the diagram holds (observed)
+    d = {"mods": spec["mods"], "wires": [{k: a[k] for k in ("sm", "sp", "dm", "dp")} for a in attempts if a["acc"]], "ext": spec["ext"]}   # the accepted connections (given)
     return {"d": d, "o": o}
 
 
